@@ -40,6 +40,10 @@ SCRIPTS = {
                                   R.Action('set', [L('B'), L('Z', zone=(N(value=0), None)), L('C')])], 'Z'),
     'group-loop': (pre() + [R.Repeat('in', [R.Action('set', [R.Operand('light', R.Var('lt'))]), R.Action('on', [R.Operand('light', R.Var('lt'))])], lvar='lt',
                                      items=[('group', R.Str('G1')), ('light', R.Str('C'))]), R.Action('off', [L('B')])], 'A'),
+    # the faulty light is asked for its colour: whatever it answers (or not), the script goes on and the
+    # commands that do not depend on the answer reach the others unchanged
+    'get-from-faulty': (pre() + [R.Action('on', [L('B')]), R.Get(R.Str('A')), R.Action('off', [L('C')]), R.Action('on', [L('B')]),
+                                 R.Action('off', [R.Operand('group', R.Str('G2'))])], 'A'),
     'loop': (pre() + [R.Repeat('all', [R.Action('set', [R.Operand('light', R.Var('lt'))])], lvar='lt'), R.Action('on', [L('C')])], 'B'),
 }
 MISMATCH = [
@@ -420,7 +424,7 @@ def run(tier, seed):
              'raises, False leaves the directory unchanged, True yields lights that a script can address with every command kind',
         assumptions=common.SCRIPT_ASSUMPTIONS[:3] + ['the LAN-wide broadcasts (set/on/off all) are fire-and-forget in lifxlan and are not made to fail; the LAN discovery request is',
                                                       'a device that does not answer = the lifxlan call raises WorkflowException (lifxlan\'s documented behaviour)',
-                                                      'scripts avoid `get` from the faulty device (later commands would depend on the lost answer)'],
+                                                      'after a `get` from the faulty device only commands that do not depend on the lost answer (power) are compared'],
         bounds={'scripts': sorted(SCRIPTS), 'requests_per_script': '<=7', 'consecutive_failures_per_request': '<=4', 'mismatch_kinds': len(MISMATCH),
                 'discovery_population': '1 known + plain/multizone/matrix snapshot, one faulty device'},
         t0=t0, technique='fault enumeration by symbolic choice variables over the real retry/VM/LightSet code (proxy objects, z3 for the colour values)')
